@@ -5,6 +5,7 @@ import (
 	"math/rand"
 	"slices"
 	"sort"
+	"strconv"
 	"sync"
 	"time"
 
@@ -288,8 +289,13 @@ func probeState(c *vlib.Ctx, st *stats, cov *chainCov, sim *chain.Sim, tk *track
 		for _, x := range cur {
 			byLen[len(x.e.se().MerkleProof)] = append(byLen[len(x.e.se().MerkleProof)], x)
 		}
-		for _, xs := range byLen {
-			targets = append(targets, xs[rng.Intn(len(xs))])
+		lens := make([]int, 0, len(byLen))
+		for l := range byLen {
+			lens = append(lens, l)
+		}
+		sort.Ints(lens)
+		for _, l := range lens {
+			targets = append(targets, byLen[l][rng.Intn(len(byLen[l]))])
 		}
 		for _, i := range rng.Perm(len(cur))[:sampleLive] {
 			targets = append(targets, cur[i])
@@ -407,21 +413,24 @@ func runChains(c *vlib.Ctx, st *stats, cov *chainCov, o judgeOpts) (behaviours, 
 	var mu sync.Mutex
 	trackers := map[*chain.Sim]*tracker{}
 	rngs := map[*chain.Sim]*rand.Rand{}
-	var simNo int64
 	v2budget := c.Pick(60, 400)
 	extend := c.Pick(64, 200)
 	opts := chain.RunOpts{Num: c.Pick(48, 500), Depth: 56, Timeout: 20 * time.Minute,
 		KeyOf: func(m chain.Mismatch) string { return "ledger/" + m.Kind + "/" + m.Tag },
 		NewSim: func(sim *chain.Sim) {
 			mu.Lock()
-			simNo++
 			trackers[sim] = &tracker{}
-			rngs[sim] = rand.New(rand.NewSource(c.Seed*1_000_003 + simNo))
 			mu.Unlock()
 		},
 		Hook: func(sim *chain.Sim, beh *chain.Behaviour, i int, stp chain.Step, res chain.StepResult) {
 			mu.Lock()
 			tk, rng := trackers[sim], rngs[sim]
+			if rng == nil {
+				// seeded by the behaviour, not by the order in which goroutines pick behaviours up
+				hv, _ := strconv.ParseUint(beh.Hash, 16, 64)
+				rng = rand.New(rand.NewSource(c.Seed*1_000_003 + int64(hv>>1)))
+				rngs[sim] = rng
+			}
 			mu.Unlock()
 			if len(res.Mismatches) > 0 {
 				return
